@@ -3495,9 +3495,26 @@ func (ts *TokenStore) authRenew(ctx context.Context, req *logical.Request, d *fr
 		return nil, fmt.Errorf("original token role %q could not be found, not renewing", te.Role)
 	}
 
-	req.Auth.Period = role.TokenPeriod
-	req.Auth.ExplicitMaxTTL = role.TokenExplicitMaxTTL
+	// The role's current values apply, but never loosen what the caller
+	// encoded onto the token itself at creation: creation used the lesser of
+	// the two (see parseAndMergeTTLPeriod), so renewal must as well.
+	req.Auth.Period = lesserNonZeroDuration(te.Period, role.TokenPeriod)
+	req.Auth.ExplicitMaxTTL = lesserNonZeroDuration(te.ExplicitMaxTTL, role.TokenExplicitMaxTTL)
 	return &logical.Response{Auth: req.Auth}, nil
+}
+
+// lesserNonZeroDuration returns the smaller of two durations, treating zero
+// as "not set".
+func lesserNonZeroDuration(a, b time.Duration) time.Duration {
+	switch {
+	case a == 0:
+		return b
+	case b == 0:
+		return a
+	case a < b:
+		return a
+	}
+	return b
 }
 
 func (ts *TokenStore) tokenStoreRole(ctx context.Context, name string) (*tsRoleEntry, error) {
